@@ -1,5 +1,6 @@
 import Driver.Proto
 import PqModel.Codec
+import PqModel.Spec.BlockCodecs
 
 /-! C20 ops: run the pool model of compress/compress.go over a history with the toy stream
 family plugged in (the Go side plugs the same toy streams into the real
@@ -82,6 +83,17 @@ def runTrace (C : Codec ToyW ToyR) : CState ToyW ToyR → List Call → List Str
     let idle := if isEncCall c then s.c.idle.map (·.id) else s.d.idle.map (·.id)
     s!"{showList toString idle}|{showList showEv r.evs}|{showOutcome r.out}" :: runTrace C r.st cs
 
+def showErr : PqModel.Spec.BlockCodecs.Err → String
+  | .fuel => "fuel" | .truncated => "truncated" | .badOffset => "bad-offset"
+  | .badLength => "bad-length" | .tooLarge => "too-large"
+
+def blockOp (x : String) (f : List UInt8 → Except PqModel.Spec.BlockCodecs.Err (List UInt8)) : String :=
+  match parseHex? x with
+  | none => "bad-op"
+  | some b => match f b with
+    | .ok out => s!"ok {toHex out}"
+    | .error e => s!"err {showErr e}"
+
 def handle (toks : List String) : Option String :=
   match toks with
   | "codec.run" :: cfg :: pol :: fuel :: ops => some <|
@@ -109,6 +121,12 @@ def handle (toks : List String) : Option String :=
       | some (none, len) => s!"ok err {len}"
       | none => "ok none"
     | _, _, _, _ => "bad-op"
+  /- spec block decoders / reference encoders of PqModel/Spec/BlockCodecs.lean -/
+  | ["codec.snappydec", x] => some <| blockOp x PqModel.Spec.BlockCodecs.snappyDec
+  | ["codec.lz4dec", x] => some <| blockOp x PqModel.Spec.BlockCodecs.lz4Dec
+  | ["codec.snappyenc", x] => some <| blockOp x (fun b => .ok (PqModel.Spec.BlockCodecs.snappyEncRle b))
+  | ["codec.snappyenclit", x] => some <| blockOp x (fun b => .ok (PqModel.Spec.BlockCodecs.snappyEncLit b))
+  | ["codec.lz4enc", x] => some <| blockOp x (fun b => .ok (PqModel.Spec.BlockCodecs.lz4EncSimple b))
   | _ => none
 
 end Driver.Ops.C20
